@@ -91,10 +91,11 @@ type TermStore struct {
 	ufOrd []string
 	True  *Term
 	False *Term
+	axioms map[int]*Term // term id -> fact that must accompany the term in every solver scope using it
 }
 
 func NewTermStore() *TermStore {
-	s := &TermStore{tab: map[string]*Term{}, ufs: map[string]*UFDecl{}}
+	s := &TermStore{tab: map[string]*Term{}, ufs: map[string]*UFDecl{}, axioms: map[int]*Term{}}
 	s.True = s.mk(&Term{op: OpConst, w: 0, c: 1})
 	s.False = s.mk(&Term{op: OpConst, w: 0, c: 0})
 	return s
@@ -454,6 +455,41 @@ func (s *TermStore) Extract(a *Term, hi, lo int) *Term {
 		}
 		if lo >= l.w {
 			return s.Extract(h, hi-l.w, lo-l.w)
+		}
+	case OpAnd, OpOr, OpXor:
+		if a.args[0].IsConst() || a.args[1].IsConst() {
+			return s.Bin(a.op, s.Extract(a.args[0], hi, lo), s.Extract(a.args[1], hi, lo))
+		}
+	case OpNot:
+		return s.Not(s.Extract(a.args[0], hi, lo))
+	case OpIte:
+		if a.args[1].IsConst() || a.args[2].IsConst() {
+			return s.Ite(a.args[0], s.Extract(a.args[1], hi, lo), s.Extract(a.args[2], hi, lo))
+		}
+	case OpShl:
+		if k := a.args[1]; k.IsConst() && k.w <= 64 {
+			sh := int(k.c)
+			if sh >= a.w || hi < sh {
+				return s.Const(w, 0)
+			}
+			if lo >= sh {
+				return s.Extract(a.args[0], hi-sh, lo-sh)
+			}
+		}
+	case OpLShr:
+		if k := a.args[1]; k.IsConst() && k.w <= 64 {
+			sh := int(k.c)
+			if sh >= a.w || lo+sh >= a.w {
+				return s.Const(w, 0)
+			}
+			if hi+sh < a.w {
+				return s.Extract(a.args[0], hi+sh, lo+sh)
+			}
+		}
+	case OpAdd, OpSub, OpMul:
+		if lo == 0 {
+			// low bits of +,-,* depend only on low bits of the operands
+			return s.Bin(a.op, s.Extract(a.args[0], hi, 0), s.Extract(a.args[1], hi, 0))
 		}
 	}
 	return s.mk(&Term{op: OpExtract, w: w, args: []*Term{a}, p1: hi, p2: lo})
